@@ -4,7 +4,7 @@
    clock - also inside loops that would not end by themselves.  The specification halts at the first fault;
    the replay demands the same first diagnostic (kind + line), no later output, no later built-in, no input
    consumed, termination, and (through the executable) exit status 70. *)
-EXTENDS BornoSem, SequencesExt
+EXTENDS BornoSem, SequencesExt, SanitySets
 CONSTANTS Pads, EmitOn
 
 Num(i) == Lit(N(i))
